@@ -16,7 +16,7 @@ from vmon.res import Result, exc_name
 
 ID = "C02"
 LEVEL = "exploration"
-CASES = {"quick": 20000, "thorough": 300000}
+CASES = {"quick": 20000, "thorough": 2400000}
 RULE = ("seeded random frames (row-id column + 1-5 payload columns over bool/int/float/str/long str/"
         "fixed-width str/date/datetime/object-bool, NA patterns none/some/first/last/all, duplicate patterns, "
         "hostile values +-inf, |x|>=2**53, +-0.0, >=50-char strings) x one subsetting call; non-trivial = "
